@@ -250,3 +250,119 @@ Theorem C08_fragment_header_agree : forall T s s',
                      Headers.s_st s' Headers.S_fragment_y_offset = Some y
     end.
 Proof. exact HeadersAgree.fragment_header_agree. Qed.
+
+(* =====================================================================================================
+   HEADER AGREEMENT, continued.  Proofs/HeadersAgree2.v; deserialiser descriptions: Model/SerDesVC2Headers.v
+   (transcribed from bitstream/vc2.py and run against the real functions under a real Deserialiser by
+   tools/harness/C08_headers.py, called from tools/harness/C08.py).
+   COVERED NOW: (12.2) picture_header, (12.4.1) transform_parameters with (12.4.4.1) extended_transform_parameters,
+   (12.4.5.2) slice_parameters (low delay, high quality, neither) and (12.4.5.3) quant_matrix including the
+   custom-matrix loops (unbounded: any dwt_depth / dwt_depth_ho), (10.5.1) parse_info including byte alignment.
+   Each: for EVERY validator state (any unread bit string, position, level history, tables, level predicate, fuel):
+   validator reads without a conformance error  ==>  the deserialiser program is Ok on the same unread bits, ends
+   with the same unread bits at the same position, and stores field for field what the validator stored.
+   With C08_sequence_header_agree / C08_fragment_header_agree above, every header structure of a stream is covered.
+   NOT covered: auxiliary_data / padding bodies (raw bytes, no validator model), the composition of the per-structure
+   theorems into one statement about a whole data unit / stream (picture_parse's two byte_align paddings and the
+   subcontext nesting of wavelet_transform), and the converse when the validator REJECTS (the deserialiser
+   substitutes or clamps instead). *)
+From VC2 Require Import Model.SerDesVC2Headers Proofs.HeadersAgree2.
+
+(* (12.2) *)
+Theorem C08_picture_header_agree : forall T s s',
+  Headers.picture_header T s = Headers.HOk (tt, s') ->
+  exists pn st',
+    SerDes.run SerDes.des_step picture_header_prog
+      (SerDes.mkst 0 [] [] [] (HeadersAgree.io_of (Headers.s_rd s))) = SerDes.Ok (tt, st') /\
+    SerDes.sio st' = HeadersAgree.io_of (Headers.s_rd s') /\
+    SerDes.root st' = SerDes.VC 40 [(200, SerDes.VI pn)] /\
+    Headers.s_st s' Headers.S_picture_number = Some pn.
+Proof. exact HeadersAgree2.picture_header_agree. Qed.
+
+(* (12.4.1).  The program is parameterised, as the Python function is, by what it takes from `state`:
+   major_version and is_ld / is_hq of the parse code.  Context: wavelet_index, dwt_depth,
+   [extended_transform_parameters = Gext when major_version >= 3], slice_parameters = Gsl,
+   quant_matrix {custom_quant_matrix = b [, quant_matrix = the list zs]}.  The validator's state holds the same
+   wavelet_index, dwt_depth, wavelet_index_ho (= wavelet_index unless coded), dwt_depth_ho (= 0 unless coded),
+   slices_x, slices_y, the slice size fields of the profile, and -- for a custom matrix -- state["quant_matrix"] is
+   exactly the dictionary built by storing the deserialised list zs under the subband keys in coding order
+   (level 0 LL or L, the horizontal-only levels H, then HL LH HH per level), zs having 1 + dwt_depth_ho +
+   3 * dwt_depth entries. *)
+Theorem C08_transform_parameters_agree : forall T lvl fuel mv pc0 s s',
+  Headers.s_st s Headers.S_major_version = Some mv -> Headers.s_st s Headers.S_parse_code = Some pc0 ->
+  Headers.transform_parameters T lvl fuel s = Headers.HOk (tt, s') ->
+  exists wi d Gext Gsl b zs st',
+    SerDes.run SerDes.des_step
+      (transform_parameters_prog mv (HeadersAgree2.is_ld' pc0) (HeadersAgree2.is_hq' pc0))
+      (SerDes.mkst 0 [] [] [] (HeadersAgree.io_of (Headers.s_rd s))) = SerDes.Ok (tt, st') /\
+    SerDes.sio st' = HeadersAgree.io_of (Headers.s_rd s') /\
+    SerDes.root st' = SerDes.VC 41 (HeadersAgree2.tp_context mv wi d Gext Gsl b zs) /\
+    Headers.s_st s' Headers.S_wavelet_index = Some wi /\ Headers.s_st s' Headers.S_dwt_depth = Some d /\
+    Headers.s_st s' Headers.S_wavelet_index_ho = Some (HeadersAgree2.wih_of wi Gext) /\
+    Headers.s_st s' Headers.S_dwt_depth_ho = Some (HeadersAgree2.dh_of Gext) /\
+    Headers.s_st s' Headers.S_slices_x = HeadersAgree2.fld 209 Gsl /\
+    Headers.s_st s' Headers.S_slices_y = HeadersAgree2.fld 210 Gsl /\
+    (HeadersAgree2.is_ld' pc0 = true ->
+       Headers.s_st s' Headers.S_slice_bytes_numerator = HeadersAgree2.fld 211 Gsl /\
+       Headers.s_st s' Headers.S_slice_bytes_denominator = HeadersAgree2.fld 212 Gsl) /\
+    (HeadersAgree2.is_hq' pc0 = true ->
+       Headers.s_st s' Headers.S_slice_prefix_bytes = HeadersAgree2.fld 213 Gsl /\
+       Headers.s_st s' Headers.S_slice_size_scaler = HeadersAgree2.fld 214 Gsl) /\
+    (b = true ->
+       length zs = quant_matrix_count d (HeadersAgree2.dh_of Gext) /\
+       HeadersAgree2.qmh s' =
+         fold_left HeadersAgree2.qstore (combine (HeadersAgree2.qm_keys d (HeadersAgree2.dh_of Gext)) zs) []).
+Proof. exact HeadersAgree2.transform_parameters_agree. Qed.
+
+(* (10.5.1), for all answers of the validator's pattern matchers.  The deserialiser's `padding` is the bits the
+   validator's byte_align skips, `_offset` the byte offset both compute after aligning. *)
+Theorem C08_parse_info_agree : forall T generic_accepts level_accepts s s',
+  Headers.parse_info T generic_accepts level_accepts s = Headers.HOk (tt, s') ->
+  exists pad pfx pcd npo ppo st',
+    SerDes.run SerDes.des_step (parse_info_prog (Headers.tell_byte (Headers.byte_align (Headers.s_rd s))))
+      (SerDes.mkst 0 [] [] [] (HeadersAgree.io_of (Headers.s_rd s))) = SerDes.Ok (tt, st') /\
+    SerDes.sio st' = HeadersAgree.io_of (Headers.s_rd s') /\
+    SerDes.root st' = SerDes.VC 45
+      (HeadersAgree2.parse_info_context pad (Headers.tell_byte (Headers.byte_align (Headers.s_rd s))) pfx pcd npo ppo) /\
+    Headers.s_st s' Headers.S_parse_code = Some pcd /\ Headers.s_st s' Headers.S_next_parse_offset = Some npo /\
+    Headers.s_st s' Headers.S_previous_parse_offset = Some ppo.
+Proof. exact HeadersAgree2.parse_info_agree. Qed.
+
+(* non-vacuity: concrete bit strings on both sides *)
+Example C08_transform_parameters_example :
+  exists s' st',
+    Headers.transform_parameters (HeadersProofs.toy_tables true) (fun _ _ _ => true) (Headers.fuel_for HeadersAgree2.ex_tp_bits)
+      (Headers.init_S HeadersAgree2.ex_state None None HeadersAgree2.ex_tp_bits 0) = Headers.HOk (tt, s') /\
+    SerDes.run_des (transform_parameters_prog 3 false true) HeadersAgree2.ex_tp_bits = SerDes.Ok (tt, st') /\
+    SerDes.root st' = SerDes.VC 41
+      [(201, SerDes.VI 1); (202, SerDes.VI 1);
+       (203, SerDes.VC 42 [(204, SerDes.VB false); (206, SerDes.VB true); (207, SerDes.VI 1)]);
+       (208, SerDes.VC 43 [(209, SerDes.VI 1); (210, SerDes.VI 1); (213, SerDes.VI 0); (214, SerDes.VI 1)]);
+       (215, SerDes.VC 44 [(216, SerDes.VB true);
+                           (217, SerDes.VL [SerDes.VI 0; SerDes.VI 3; SerDes.VI 0; SerDes.VI 2; SerDes.VI 0])])] /\
+    SerDes.pos (SerDes.sio st') = 33 /\ Headers.r_pos (Headers.s_rd s') = 33 /\
+    Headers.s_qm s' = Some [((0, Headers.O_L), 0); ((1, Headers.O_H), 3); ((2, Headers.O_HL), 0);
+                            ((2, Headers.O_LH), 2); ((2, Headers.O_HH), 0)] /\
+    Headers.s_st s' Headers.S_dwt_depth_ho = Some 1 /\ Headers.s_st s' Headers.S_slice_size_scaler = Some 1.
+Proof. exact HeadersAgree2.transform_parameters_example. Qed.
+
+Example C08_picture_header_example :
+  exists s' st',
+    Headers.picture_header (HeadersProofs.toy_tables true)
+      (Headers.init_S HeadersAgree2.ex_state None None (Headers.bits_of_bytes [0; 0; 1; 5; 255]) 0) = Headers.HOk (tt, s') /\
+    SerDes.run_des picture_header_prog (Headers.bits_of_bytes [0; 0; 1; 5; 255]) = SerDes.Ok (tt, st') /\
+    SerDes.root st' = SerDes.VC 40 [(200, SerDes.VI 261)] /\ SerDes.pos (SerDes.sio st') = 32 /\
+    Headers.r_pos (Headers.s_rd s') = 32 /\ Headers.s_st s' Headers.S_picture_number = Some 261.
+Proof. exact HeadersAgree2.picture_header_example. Qed.
+
+Example C08_parse_info_example :
+  exists s' st',
+    Headers.parse_info (HeadersProofs.toy_tables true) (fun _ => true) (fun _ => true)
+      (Headers.init_S [(Headers.S_generic_sequence_matcher, 1)] None None
+         (Headers.bits_of_bytes [66; 66; 67; 68; 0; 0; 0; 0; 14; 0; 0; 0; 0; 9]) 0) = Headers.HOk (tt, s') /\
+    SerDes.run_des (parse_info_prog 0) (Headers.bits_of_bytes [66; 66; 67; 68; 0; 0; 0; 0; 14; 0; 0; 0; 0; 9]) = SerDes.Ok (tt, st') /\
+    SerDes.root st' = SerDes.VC 45 [(220, SerDes.VBits []); (221, SerDes.VI 0); (222, SerDes.VI 1111638852);
+                                    (223, SerDes.VI 0); (224, SerDes.VI 14); (225, SerDes.VI 0)] /\
+    SerDes.pos (SerDes.sio st') = 104 /\ Headers.r_pos (Headers.s_rd s') = 104 /\
+    Headers.s_st s' Headers.S_next_parse_offset = Some 14.
+Proof. exact HeadersAgree2.parse_info_example. Qed.
